@@ -32,7 +32,20 @@ def run_selftest(prop):
             'failed': [l for l in lines if l.startswith('SELFTEST ') and not l.startswith('SELFTEST OK')
                        and ' entries' not in l][:20]}
     print('SELFTEST summary: %(ok)d of %(entries)d entries as expected' % summ)
-    return pr.returncode, summ
+    rc = pr.returncode
+    # the kept seeded changes of this property (written by independent sub-agents) must be reported too
+    sd = os.path.join(os.path.dirname(HERE), 'seeded')
+    ids = sorted(x for x in os.listdir(sd) if x.startswith(prop + '-') and os.path.isfile(os.path.join(sd, x, 'patch.diff')))
+    if ids:
+        pr2 = subprocess.run([sys.executable, os.path.join(sd, 'eval.py'), '--no-results'] + ids, stdout=subprocess.PIPE,
+                             stderr=subprocess.STDOUT, universal_newlines=True)
+        caught = [l.split()[0] for l in pr2.stdout.splitlines() if "fired=['%s']" % prop in l]
+        summ['seeded'] = {'kept': ids, 'reported': caught}
+        print('SEEDED summary: %d of %d kept changes reported' % (len(caught), len(ids)))
+        if len(caught) != len(ids):
+            print(pr2.stdout)
+            rc = rc or 2
+    return rc, summ
 
 
 def main(argv):
